@@ -46,7 +46,7 @@ func properties() []*propDef {
 		},
 		{
 			ID: "C16", Title: "Every built-in function is callable under its specification name and arity",
-			Rules: []ruleFn{ruleTAB1, ruleTAB2, ruleTAB3, ruleTAB4},
+			Rules: []ruleFn{ruleTAB1, ruleTAB2, ruleTAB3, ruleTAB4, ruleGLB1, ruleGLB2},
 			Explanation: "Exhaustive over both function tables as they stand in the working tree: TAB1 compares every key with the implementation bound to it (name agreement) and every exported implementation with its registration; TAB2 decides, for every entry and n=0..5, by conditional constant propagation under len(args)=n whether the implementation itself rejects the arity, and compares with the table bounds and the frozen FHIRPath N1 arities; TAB3 shows the placeholder errors on all paths; TAB4 shows VisitFunction constructs the call node iff the name was found and Min<=n<=Max.",
 			NotDecided: []string{"well-typedness of arguments per specification signature", "behaviour of the bound implementation beyond its arity handling"},
 			Assumptions: []string{"FHIRPath N1 arities as frozen in rules_c16.go", "implementations signal arity rejection through impl.ErrWrongArity"},
